@@ -235,8 +235,9 @@ class Gen:
             if self.r.random() < 0.1 and len(sections) > 1:
                 # a listed section that is also somebody's sub-group member
                 k0 = self.pick(list(sg))
-                other = self.pick([x for x in sections if x != k0])
-                if other not in sg:
+                others = [x for x in sections if x != k0]
+                other = self.pick(others) if others else None
+                if other is not None and other not in sg:
                     sg[k0] = sg[k0] + [other]
             if self.r.random() < 0.35:
                 # a sub-group member that has sub-groups of its own (nesting depth two and more)
@@ -389,6 +390,17 @@ class Gen:
         return doc
 
     def case_parts(self):
+        """one case; a slip of the generator itself (an empty pool for some rare combination) must not take the
+        whole check down: the draw is repeated from the same random stream, and after five failures a minimal
+        document is returned (the failure is visible as meta of the case)"""
+        for _ in range(5):
+            try:
+                return self._case_parts()
+            except (ValueError, IndexError, KeyError, TypeError) as e:
+                self.gen_error = repr(e)
+        return ({"segments": [{"name": "boot", "files": [{"path": "a.o"}]}]}, [], False, False)
+
+    def _case_parts(self):
         self.cur_opts = self.options()
         doc = self.document()
         opts = self.cur_opts
